@@ -577,29 +577,49 @@ func r19_6(c *RC) {
 			continue // client sessions / generic wrapper
 		}
 		key := "creation-knows-user@" + fnName(s.Fn)
-		good := false
+		// Where does each transport learn the user of a new session?
+		//  - datagrams: every datagram that opens a session was authenticated by
+		//    discovery, which stores the user's policy in that segment;
+		//  - a TCP connection authenticates once: only its first segment
+		//    carries a policy, later sessions multiplexed on the connection
+		//    must take the policy remembered by the underlay.
+		recvT := ""
+		if s.Fn.Signature.Recv() != nil {
+			recvT = s.Fn.Signature.Recv().Type().String()
+		}
+		stream := strings.HasSuffix(recvT, "StreamUnderlay")
 		var how []string
+		fromUnderlay, fromSegment, fromAuth := false, false, false
 		for _, l := range Leaves(cl.Common().Args[3], nil) {
-			switch x := l.(type) {
-			case *ssa.Call:
-				if calleeName(x) == "Policy" {
-					good = true
-					how = append(how, "authentication.Policy()")
-				}
-			case *ssa.UnOp:
-				if f := fieldOrigin(x); f != nil && f.Name() == "serverUserPolicy" {
-					good = true
-					how = append(how, "serverUserPolicy")
-				}
+			if x, ok := l.(*ssa.Call); ok && calleeName(x) == "Policy" {
+				fromAuth = true
+				how = append(how, "authentication.Policy()")
 			}
 			if f := fieldOrigin(l); f != nil && f.Name() == "serverUserPolicy" {
-				good = true
+				owner := ""
+				if u, ok := l.(*ssa.UnOp); ok {
+					if fa, ok := u.X.(*ssa.FieldAddr); ok {
+						owner = fa.X.Type().String()
+					}
+				}
+				if strings.HasSuffix(owner, "segment") {
+					fromSegment = true
+					how = append(how, "segment.serverUserPolicy")
+				} else {
+					fromUnderlay = true
+					how = append(how, "underlay.serverUserPolicy")
+				}
 			}
 		}
-		if good {
-			c.OKH(key, s.Pos(), "the policy passed derives from the authenticated user (%s)", strings.Join(how, ", "))
-		} else {
-			c.Bad(key, s.Pos(), "%s creates a server session with policy %s, which is not the authenticated user's: its counters cannot be attached at creation", fnName(s.Fn), describe(cl.Common().Args[3]))
+		switch {
+		case stream && fromUnderlay:
+			c.OKH(key, s.Pos(), "stream: the policy remembered by the connection (%s)", strings.Join(how, ", "))
+		case stream:
+			c.Bad(key, s.Pos(), "a TCP connection is authenticated once, on its first segment; %s creates later sessions of the same connection from %v only, i.e. without a user: their quota is not checked and their traffic is not attributed", fnName(s.Fn), how)
+		case fromSegment || fromAuth:
+			c.OKH(key, s.Pos(), "datagram: the policy discovery stored in the authenticated segment (%s)", strings.Join(how, ", "))
+		default:
+			c.Bad(key, s.Pos(), "%s creates a server session with policy %s, which is not the authenticated user's", fnName(s.Fn), describe(cl.Common().Args[3]))
 		}
 	}
 }
